@@ -159,6 +159,8 @@ func OrderedDaemon.BackgroundWorker
   -- not contain the name, still lists registered names only and has no duplicates
   ghost before call WithCancel: assert d.workers != nil && (forall i Int :: 0 <= i && i < len(d.shutdownOrderWorker) ==> d.shutdownOrderWorker[i] != name && has(d.workers, d.shutdownOrderWorker[i]) && d.workers[d.shutdownOrderWorker[i]].shutdownOrder == sel(d.ordOf, d.shutdownOrderWorker[i]))
   ghost before call WithCancel: assert (forall i Int, j Int :: 0 <= i && i < j && j < len(d.shutdownOrderWorker) ==> d.shutdownOrderWorker[i] != d.shutdownOrderWorker[j])
+  -- the worker is registered under the order it was given (none given: 0), negative orders included
+  ghost before call Slice: assert has(d.workers, name) && d.workers[name].shutdownOrder == (len(order) > 0 ? order[0] : 0)
   ghost before call Slice: d.ordOf = upd(d.ordOf, name, shutdownOrder)
   ghost before call Slice: assert (forall i Int :: 0 <= i && i < len(d.shutdownOrderWorker) ==> has(d.workers, d.shutdownOrderWorker[i]) && d.workers[d.shutdownOrderWorker[i]].shutdownOrder == sel(d.ordOf, d.shutdownOrderWorker[i]))
   ghost before call Slice: assert (forall i Int, j Int :: 0 <= i && i < j && j < len(d.shutdownOrderWorker) ==> d.shutdownOrderWorker[i] != d.shutdownOrderWorker[j])
@@ -173,4 +175,16 @@ func OrderedDaemon.Start
   ghost before call OrderedDaemon.runBackgroundWorker: assert !aload(d.stopped) && aload(d.running) && held(d.lock)
   loop 1 invariant held(d.lock) && moninv(d)
   ensures unlocked(d.lock)
+
+-- ShutdownAndWait: every call goes through the daemon's Once - the first caller runs the stop sequence, every other caller
+-- blocks in Do until that sequence has finished - so no call returns while workers are still being stopped, whatever the
+-- flags say at that moment
+func OrderedDaemon.ShutdownAndWait
+  requires d != nil
+  modifies everything
+  ghost local waited Bool       -- this call has been through the Once (ghost)
+  ghost at entry: waited = false
+  ghost before call Once.Do: assert arg0 == addr(d.stopOnce)
+  ghost after call Once.Do: waited = true
+  ghost at return: assert waited
 @*/
